@@ -97,6 +97,7 @@ type Obs struct {
 	Live     string              `json:"live,omitempty"` // sha1 of a full read of the volume
 	Counter  int64               `json:"counter"`        // revision.counter on disk
 	Actions  int                 `json:"actions,omitempty"`
+	Snaps    map[string]string   `json:"snaps,omitempty"` // inspect: fingerprint of the volume as of each chain snapshot
 }
 
 type Out struct {
@@ -276,7 +277,7 @@ func (r *runner) step(op Op) Obs {
 		res, msg = "err", "unknown op "+op.Op
 	}
 	o := Obs{Res: res, Err: msg, Actions: actions}
-	if rep := s.Replica(); rep != nil {
+	if rep := r.s.Replica(); rep != nil {
 		observeReplica(&o, rep)
 	}
 	o.Dir = scanDir(r.dir)
@@ -332,6 +333,7 @@ func inspect(c Case) Out {
 	if err != nil {
 		o1.Res, o1.Err = "err", "readinfo: "+err.Error()
 		o1.Dir = scanDir(dir)
+		o1.Counter = readCounter(dir)
 		out.Obs = append(out.Obs, o1)
 		return out
 	}
@@ -346,6 +348,7 @@ func inspect(c Case) Out {
 	case <-time.After(5 * time.Second):
 		o1.Res, o1.Err = "err", "hang: replica.New did not return"
 		o1.Dir = scanDir(dir)
+		o1.Counter = readCounter(dir)
 		out.Obs = append(out.Obs, o1)
 		return out
 	}
@@ -354,23 +357,38 @@ func inspect(c Case) Out {
 	} else {
 		o1.Res = "ok"
 		observeReplica(&o1, rep)
-		// snapshot images: read-only open with the snapshot as head
-		for i, d := range o1.Chain {
-			if i == 0 {
-				continue
-			}
-			ro, err := replica.NewReadOnly(true, dir, d, nil)
-			h := "openerr"
-			if err == nil {
-				buf := make([]byte, ro.Info().Size)
-				if _, err := ro.ReadAt(buf, 0); err == nil {
-					h = fingerprint(buf)
-				} else {
-					h = "readerr"
+		o1.Dir = scanDir(dir)
+		o1.Counter = readCounter(dir)
+		// snapshot images: open a copy with the snapshot as head.  NB construct() never sets
+		// r.readOnly, so NewReadOnly rewrites volume.meta with Head = the snapshot: work on a copy and
+		// put volume.meta back before each open.
+		ro := dir + ".ro"
+		if copyDir(dir, ro) == nil {
+			vm, _ := ioutil.ReadFile(filepath.Join(ro, "volume.meta"))
+			for i, d := range o1.Chain {
+				if i == 0 {
+					continue
 				}
+				ioutil.WriteFile(filepath.Join(ro, "volume.meta"), vm, 0600)
+				rr, err := replica.NewReadOnly(true, ro, d, nil)
+				h := "openerr"
+				if err == nil {
+					buf := make([]byte, rr.Info().Size)
+					if _, err := rr.ReadAt(buf, 0); err == nil {
+						h = fingerprint(buf)
+					} else {
+						h = "readerr"
+					}
+				}
+				if o1.Snaps == nil {
+					o1.Snaps = map[string]string{}
+				}
+				o1.Snaps[d] = h
 			}
-			o1.Err += d + "=" + h + ";"
+			os.RemoveAll(ro)
 		}
+		out.Obs = append(out.Obs, o1)
+		return out
 	}
 	o1.Dir = scanDir(dir)
 	o1.Counter = readCounter(dir)
